@@ -255,7 +255,8 @@ def linkage_audit(ctx, out):
             breaks.append(f"linkage:theorem {t} not reported by the linkage audit")
             continue
         ex, ne = link[t]
-        stray = [d for d in ne if d not in spec_only]
+        # NgVerif.Generated.* is rewritten from the source on every run: its tie is the table extractor
+        stray = [d for d in ne if d not in spec_only and not d.startswith("NgVerif.Generated.")]
         for d in stray:
             breaks.append(f"linkage:theorem {t} is stated over model definition {d}, which the driver never "
                                   f"executes and lean/linkage.json does not list as specification-side")
